@@ -18,8 +18,9 @@ What this decides: the structural necessary condition "no limb is silently ignor
 limbs is right."""
 import json
 import os
+import re
 
-from .mir import Body, const_int
+from .mir import Body, const_int, operand_local
 from .absint import FnEval
 from .report import Finding
 from .ctflow import norm_name
@@ -87,8 +88,12 @@ class FnCov:
         if tid is None:
             return None
         td = self.f.ty(tid)
-        if td.get("k") == "array" and isinstance(td.get("len"), int):
-            return td["len"]
+        if td.get("k") == "array":
+            if isinstance(td.get("len"), int):
+                return td["len"]
+            et = self.f.ty(td["elem"])
+            if td.get("size") and et.get("size"):
+                return td["size"] // et["size"]
         return None
 
     # ---- aliases -----------------------------------------------------------
@@ -301,26 +306,32 @@ class FnCov:
             self.touch_whole(base)
 
 
+CURVES = ("crrl::ed25519::", "crrl::ed448::", "crrl::ristretto255::", "crrl::decaf448::", "crrl::p256::",
+          "crrl::secp256k1::", "crrl::jq255e::", "crrl::jq255s::", "crrl::gls254::")
 SCOPES = {
-    # property -> module prefixes whose functions (and everything they call) rely on whole-value limb operations
+    # property -> module prefixes / name pattern whose functions (and everything they call) rely on whole-value limb operations
     "C05": None, "C18": None, "C20": None,
-    "C06": ("crrl::ed25519::", "crrl::ed448::", "crrl::ristretto255::", "crrl::decaf448::", "crrl::p256::",
-            "crrl::secp256k1::", "crrl::jq255e::", "crrl::jq255s::", "crrl::gls254::"),
+    "C04": CURVES, "C06": CURVES,
     "C07": ("crrl::ed25519::", "crrl::ed448::"),
     "C08": ("crrl::p256::", "crrl::secp256k1::"),
     "C09": ("crrl::jq255e::", "crrl::jq255s::", "crrl::gls254::"),
+    "C10": re.compile(r".*vartime.*"),
+    "C11": re.compile(r".*::(split_vartime|split_mu|split_theta|mul_divr_rounded|lagrange\w*)"),
+    "C13": re.compile(r".*::(verify_trunc\w*|prepare_truncate|x_sequence_vartime)"),
+    "C15": ("crrl::frost::",),
 }
 
 
 def scope_filter(facts, prop):
-    """predicate: is the function inside the call trees of the property's anchor modules?"""
+    """predicate: is the function inside the call trees of the property's anchor functions?"""
     pre = SCOPES.get(prop)
     if pre is None:
         return None
     seen = set()
     work = []
     for fn in facts.fns.values():
-        if norm_name(fn["name"]).startswith(pre):
+        nm = norm_name(fn["name"])
+        if (nm.startswith(pre) if isinstance(pre, tuple) else bool(pre.fullmatch(nm))):
             seen.add(fn["id"])
             work.append(fn)
     while work:
@@ -421,8 +432,20 @@ class FnDeps(FnCov):
         self.indexed = set()   # keys accessed limb by limb in this function
         self._under = {}
 
+    MIN_N = 3
+    LEAVES = False     # also report non-array leaf fields as one-cell 'arrays' (must-write analysis)
+
+    def arr_n(self, td):
+        """element count of an array type (layout-derived when the length is an unevaluated associated const)."""
+        if isinstance(td.get("len"), int):
+            return td["len"]
+        et = self.f.ty(td["elem"])
+        if td.get("size") and et.get("size"):
+            return td["size"] // et["size"]
+        return None
+
     def arrays_under(self, tid, depth=0):
-        """[(path, n)] of fixed-size arrays (n >= 3) inside type tid (through refs and struct fields)."""
+        """[(path, n)] of fixed-size arrays (n >= MIN_N) inside type tid (through refs and struct fields)."""
         if tid in self._under:
             return self._under[tid]
         out = []
@@ -432,12 +455,24 @@ class FnDeps(FnCov):
         if k in ("ref", "ptr"):
             out.extend(self.arrays_under(td["to"], depth))
         elif k == "array":
-            if isinstance(td.get("len"), int) and td["len"] >= 3:
-                out.append(((), td["len"]))
+            n = self.arr_n(td)
+            if n is not None and n >= self.MIN_N:
+                out.append(((), n))
         elif k == "adt" and not td.get("enum") and not td.get("union") and td.get("variants") and depth < 3:
-            for i, fl in enumerate(td["variants"][0][2]):
-                for p, n in self.arrays_under(fl[1], depth + 1):
+            fields = td["variants"][0][2]
+            for i, fl in enumerate(fields):
+                ftd = self.f.ty(fl[1])
+                if ftd.get("k") == "array" and self.arr_n(ftd) is None and len(fields) == 1:
+                    # [T; Self::N] (gfgen): the newtype's layout gives the element count
+                    et = self.f.ty(ftd["elem"])
+                    if td.get("size") and et.get("size") and td["size"] // et["size"] >= self.MIN_N:
+                        out.append(((("f", i),), td["size"] // et["size"]))
+                    continue
+                sub = self.arrays_under(fl[1], depth + 1)
+                for p, n in sub:
                     out.append(((("f", i),) + p, n))
+                if not sub and self.LEAVES and ftd.get("k") not in ("array",):
+                    out.append(((("f", i),), 1))
         elif k == "tuple" and depth < 3:
             for i, t in enumerate(td.get("elems", [])):
                 for p, n in self.arrays_under(t, depth + 1):
@@ -617,3 +652,319 @@ def run_limbdeps(facts, run, prop, type_filter=None):
     run.stats = getattr(run, "stats", {})
     run.stats.update(k5b_returns_full=n_ret)
     return n_ret
+
+
+# ---------------------------------------------------------------------------
+# K5c: sibling call sequences over limbs -- one index used twice while another is skipped
+# ---------------------------------------------------------------------------
+
+def _chase_limb_place(b, pl, depth=0):
+    """follow copies (`let a1 = self.0[1]`, tuple destructuring of `(self.0[0], self.0[1])`) back to an indexed place."""
+    for _ in range(8):
+        if any(e != "*" and e[0] in ("i", "c") for e in pl[1:]):
+            return pl
+        if len(pl) == 1:
+            d = b.single_def(pl[0])
+            if d and d[2] == "A" and d[3][2][0] == "use" and d[3][2][1][0] in ("cp", "mv"):
+                pl = d[3][2][1][1]
+                continue
+            return None
+        if len(pl) == 2 and pl[1] != "*" and pl[1][0] == "f":
+            d = b.single_def(pl[0])
+            if d and d[2] == "A" and d[3][2][0] == "agg" and pl[1][1] < len(d[3][2][2]):
+                o = d[3][2][2][pl[1][1]]
+                if o[0] in ("cp", "mv"):
+                    pl = o[1]
+                    continue
+            return None
+        return None
+    return None
+
+
+def run_limbseq(facts, run, prop, type_filter=None):
+    """Within one function, the calls to one callee (addcarry / subborrow / umull ... chains) that take `A[k]` (constant k,
+    same array A) in the same argument position form a sequence of limb indices.  A sequence that uses some index twice
+    while skipping an index in between is the copy-and-paste slip `A[1], A[1], A[3]`: reported unless reviewed."""
+    tab = load_table()
+    allowed = {(e["fn"], e["array"], e["kind"]) for e in tab.get("partial_ok", [])}
+    cfg = facts.config
+    n_seq = 0
+    for fn in facts.fns.values():
+        if fn["kind"] == "Closure" or not fn["file"].startswith("src/"):
+            continue
+        if type_filter and not type_filter(fn):
+            continue
+        fd = FnDeps(facts, fn)
+        b = fd.b
+        seqs = {}
+        for bi in b.rpo():
+            if bi not in b.reach:
+                continue
+            t = b.blocks[bi]["t"]
+            if t[0] != "call":
+                continue
+            for pos, o in enumerate(t[2]):
+                if o[0] not in ("cp", "mv"):
+                    continue
+                pl = _chase_limb_place(b, o[1])
+                if pl is None:
+                    continue
+                sp = fd.split_index(pl)
+                if sp is None or sp[2]:
+                    continue
+                base = fd.resolve(sp[0])
+                if base is None:
+                    continue
+                n = fd.arr_len(fd.key_ty(base))
+                if n is None or n < 3:
+                    continue
+                ie = sp[1]
+                if ie[0] == "c":
+                    idx = ie[1]
+                elif ie[0] == "i":
+                    iv = fd.ev.at_block(bi).ival(ie[1], bi)
+                    if iv is None or iv[0] != iv[1]:
+                        continue
+                    idx = int(iv[0])
+                else:
+                    continue
+                seqs.setdefault((t[1]["f"], pos, fd.canon(base), n), []).append((idx, t[5]))
+        for (callee, pos, key, n), seq in sorted(seqs.items(), key=str):
+            idxs = [i for i, _l in seq]
+            if len(idxs) < 3:
+                continue
+            n_seq += 1
+            dup = sorted(set(i for i in idxs if idxs.count(i) > 1))
+            miss = [i for i in range(min(idxs), max(idxs) + 1) if i not in idxs]
+            # a slip = exactly one duplicated index, exactly one missing, and the sequence otherwise has no repeats
+            if len(dup) == 1 and len(miss) == 1 and idxs.count(dup[0]) == 2 and len(idxs) == len(set(idxs)) + 1:
+                ak = (fn_key(fn), pathstr(fn, key), "seq")
+                if ak in allowed:
+                    run.oblige()
+                    continue
+                line = [l for i, l in seq if i == dup[0]][-1]
+                run.oblige(ok=False)
+                run.add(Finding("K5c", "%s|%s|%s|%d" % (fn_key(fn), pathstr(fn, key), callee.split("::")[-1], pos),
+                                "limbcov K5c: in %s (%s:%s) the calls to %s take limbs %s of `%s` as argument %d: limb %d is used twice "
+                                "and limb %d never (index slip in a limb chain)" % (
+                                    fn["name"], fn["file"], line, callee.split("::")[-1], idxs, pathstr(fn, key), pos, dup[0], miss[0]),
+                                config=cfg, site="%s:%s" % (fn["file"], line), prop=prop))
+            else:
+                run.oblige()
+    run.stats = getattr(run, "stats", {})
+    run.stats.update(k5c_sequences=n_seq)
+    return n_seq
+
+
+# ---------------------------------------------------------------------------
+# K5d: a decoder overwrites its whole receiver on every path
+# ---------------------------------------------------------------------------
+
+DECODER_RE = r"crrl::backend::.*::set_decode(_ct|_reduce|32|_raw|\d+_reduce)"
+
+
+class MustWrite:
+    """Forward must-analysis: which limbs of parameter 1's limb arrays are definitely written when the function returns."""
+
+    def __init__(self, facts, memo):
+        self.f = facts
+        self.memo = memo
+
+    def fully_writes(self, fid, depth=0):
+        if fid in self.memo:
+            return self.memo[fid]
+        self.memo[fid] = False     # recursion: assume not
+        fn = self.f.fns.get(fid)
+        res = False
+        if fn is not None and fn["argc"] >= 1 and depth < 6:
+            res = self.analyse(fn, depth)[0]
+        self.memo[fid] = res
+        return res
+
+    def analyse(self, fn, depth=0):
+        """-> (all limbs written on every returning path, description of the first offending return path)"""
+        fd = FnDeps(self.f, fn)
+        fd.MIN_N = 1
+        fd.LEAVES = True
+        b = fd.b
+        td = self.f.ty(b.local_ty(1))
+        if td.get("k") != "ref" or not td.get("mut"):
+            return False, "receiver is not &mut"
+        arrays = fd.arrays_under(td["to"])
+        if not arrays:
+            return False, "no limb array in the receiver"
+        FULL = {}
+        for pth, n in arrays:
+            FULL[pth] = (1 << n) - 1
+        loops = b.loops()
+        # loop-complete writes: Range loops whose indexed write dominates every latch
+        def write_of(place, bi):
+            """{path: mask} written by an assignment to `place` (None when not about the receiver)."""
+            if place[0] not in fd.alias or fd.alias[place[0]][0] != 1:
+                return None
+            sp = fd.split_index(place)
+            if sp is None:
+                base = fd.resolve(place)
+                if base is None:
+                    return None
+                ck = fd.canon(base)[1]
+                out = {}
+                for pth, m in FULL.items():
+                    if pth[:len(ck)] == ck:
+                        out[pth] = m
+                return out
+            pre, ie, _rest = sp
+            if _rest:
+                return {}
+            base = fd.resolve(pre)
+            if base is None:
+                return None
+            ck = fd.canon(base)[1]
+            if ck not in FULL:
+                return {}
+            n = bin(FULL[ck]).count("1")
+            if ie[0] == "c":
+                return {ck: 1 << ie[1]}
+            if ie[0] == "i":
+                iv = fd.ev.at_block(bi).ival(ie[1], bi)
+                if iv is not None and iv[0] == iv[1] and 0 <= iv[0] < n:
+                    return {ck: 1 << int(iv[0])}
+                if iv is not None and 0 <= iv[0] and iv[1] < n:
+                    return {("loop", ck): ((1 << (int(iv[1]) + 1)) - 1) & ~((1 << int(iv[0])) - 1)}
+            return {}
+
+        gen = {bi: {} for bi in b.reach}
+        loopgen = {}
+        for bi in sorted(b.reach):
+            blk = b.blocks[bi]
+            writes = []
+            for s in blk["s"]:
+                if s[0] == "A":
+                    w = write_of(s[1], bi)
+                    if w:
+                        writes.append(w)
+            t = blk["t"]
+            if t[0] == "call":
+                if t[3]:
+                    w = write_of(t[3], bi)
+                    if w:
+                        writes.append(w)
+                # a callee that fully overwrites its own receiver, called on (a reborrow of) ours
+                if t[1].get("l") and t[1].get("id") in self.f.fns and t[2]:
+                    a0 = t[2][0]
+                    if a0[0] in ("cp", "mv") and len(a0[1]) == 1 and a0[1][0] in fd.alias and fd.alias[a0[1][0]][0] == 1:
+                        ck = fd.canon(fd.alias[a0[1][0]])[1]
+                        if self.fully_writes(t[1]["id"], depth + 1):
+                            writes.append({pth: m for pth, m in FULL.items() if pth[:len(ck)] == ck})
+                    elif a0[0] in ("cp", "mv") and len(a0[1]) == 1:
+                        # `self.0[k].set_decode_ct(..)`: the receiver is one element of our array
+                        dd = b.single_def(a0[1][0])
+                        if dd and dd[2] == "A" and dd[3][2][0] == "ref" and dd[3][2][1] and self.fully_writes(t[1]["id"], depth + 1):
+                            w = write_of(dd[3][2][2], dd[0])
+                            if w:
+                                writes.append(w)
+            for w in writes:
+                for k, m in w.items():
+                    if isinstance(k[0], str) and k[0] == "loop":
+                        # credited at loop exit when the write happens in every iteration
+                        inner = [h for h, body_ in loops.items() if bi in body_]
+                        if inner:
+                            h = min(inner, key=lambda x: len(loops[x]))
+                            latches = [p_ for p_ in b.pred[h] if p_ in loops[h]]
+                            if all(b.dominates(bi, l_) for l_ in latches):
+                                loopgen.setdefault(h, {})
+                                loopgen[h][k[1]] = loopgen[h].get(k[1], 0) | m
+                    else:
+                        gen[bi][k] = gen[bi].get(k, 0) | m
+        # forward must dataflow (intersection at joins)
+        TOP = dict(FULL)
+        inn = {bi: None for bi in b.reach}
+        entry = 0
+        inn[entry] = {k: 0 for k in FULL}
+        work = [entry]
+        outs = {}
+        it = 0
+        while work and it < 5000:
+            it += 1
+            bi = work.pop()
+            st = dict(inn[bi])
+            for k, m in gen[bi].items():
+                st[k] = st.get(k, 0) | m
+            outs[bi] = st
+            for s_ in b.succ[bi]:
+                if s_ not in inn:
+                    continue
+                ns = dict(st)
+                # leaving loop h through its iterator-exhausted exit: credit the per-iteration writes
+                for h, lg in loopgen.items():
+                    if bi in loops[h] and s_ not in loops[h] and _is_iter_exit(b, bi):
+                        for k, m in lg.items():
+                            ns[k] = ns.get(k, 0) | m
+                old = inn[s_]
+                if old is None:
+                    inn[s_] = ns
+                    work.append(s_)
+                else:
+                    mer = {k: old.get(k, 0) & ns.get(k, 0) for k in FULL}
+                    if mer != old:
+                        inn[s_] = mer
+                        work.append(s_)
+        bad = None
+        for bi in b.reach:
+            if b.blocks[bi]["t"][0] == "ret" and bi in outs:
+                st = outs[bi]
+                for k, m in FULL.items():
+                    if st.get(k, 0) != m:
+                        miss = [i for i in range(bin(m).count("1")) if not (st.get(k, 0) >> i) & 1]
+                        bad = "limbs %s of %s may keep their previous value" % (miss, pathstr(fn, (1, k)))
+        return bad is None, bad
+
+
+def _dom(b, a, x):
+    """a dominates x"""
+    idom = b.idom()
+    seen = 0
+    while x != a and seen < 10000:
+        nx = idom.get(x) if isinstance(idom, dict) else idom[x]
+        if nx is None or nx == x:
+            return False
+        x = nx
+        seen += 1
+    return x == a
+
+
+def _is_iter_exit(b, bi):
+    t = b.blocks[bi]["t"]
+    if t[0] != "switch":
+        return False
+    l = operand_local(t[1])
+    d = b.single_def(l) if l is not None else None
+    if d and d[2] == "A" and d[3][2][0] == "discr":
+        src = d[3][2][1][0]
+        dd = b.single_def(src)
+        return bool(dd and dd[2] == "call" and "Iterator" in dd[3][1]["f"] and dd[3][1]["f"].endswith("::next"))
+    return False
+
+
+def run_fullwrite(facts, run, prop):
+    import re as _re
+    cfg = facts.config
+    mw = MustWrite(facts, {})
+    n = 0
+    for fn in facts.fns.values():
+        if not _re.fullmatch(DECODER_RE, norm_name(fn["name"])):
+            continue
+        n += 1
+        ok, why = mw.analyse(fn)
+        run.oblige(ok=ok)
+        if ok:
+            if n % 7 == 0:
+                run.sample("K5d %s: every limb of the receiver is written on every returning path (config %s)" % (fn["name"], cfg))
+        else:
+            run.add(Finding("K5d", norm_name(fn["name"]),
+                            "limbcov K5d: decoder %s (%s:%s) does not overwrite its receiver on every path: %s (a decoder's result must be a "
+                            "function of the input bytes only, also for rejected or empty input)" % (fn["name"], fn["file"], fn["line"], why),
+                            config=cfg, site="%s:%s" % (fn["file"], fn["line"]), prop=prop))
+    run.stats = getattr(run, "stats", {})
+    run.stats.update(k5d_decoders=n)
+    return n
